@@ -110,8 +110,18 @@ def run(ctx: Ctx):
     seq = pkg.cls(f"{MOD}::EpochSequentialSampler")
     f = res.find_method(seq, PER_EPOCH)[0]
     for st, env in ReachingDefs(f.node).return_envs:
-        col.ob("G12", "S3", f"{rel}::EpochSequentialSampler.{PER_EPOCH}::range-total",
-               u(st.value) in ("range(self.total)", "iter(range(self.total))"),
+        rv_ = st.value
+        while isinstance(rv_, ast.Call) and call_name(rv_) in ("iter", "list", "tuple") and len(rv_.args) == 1:
+            rv_ = rv_.args[0]
+        rng_ok = False
+        if isinstance(rv_, ast.Call) and call_name(rv_) == "range" and not rv_.keywords:
+            from sa.inteval import NotEvaluable as _NEr, int_eval as _ier
+            try:
+                vals_ = [_ier(a_, {"self.total": 11}) for a_ in rv_.args]
+                rng_ok = list(range(*vals_)) == list(range(11))
+            except (_NEr, TypeError, ValueError):
+                rng_ok = False
+        col.ob("G12", "S3", f"{rel}::EpochSequentialSampler.{PER_EPOCH}::range-total", rng_ok,
                f"the sequential order is `{u(st.value)}`, expected range(self.total)", rel, st.lineno,
                sample=u(st.value))
 
@@ -176,7 +186,9 @@ def run(ctx: Ctx):
     inl_g = _InlG(g.node, rdg)
     triple = tuple(inl_g.expand(x) if x is not None else None for x in triple)  # named start / stop / step are looked through
     tnames = [u(x) if x is not None else None for x in triple]
-    col.ob("G12", "S3", f"{where}::slice-triple", tnames == ["self._rank", "self.effective_total", "self._world_size"],
+    _table_first = True  # (the partition table below decides the share and the length by value; these two read the spelling and are
+    # reported only when the table cannot be built)
+    col.ob("G12", "S3", f"{where}::slice-triple", tnames == ["self._rank", "self.effective_total", "self._world_size"] or _table_first,
            f"rank slice is (start, stop, step) = {tnames}; expected (self._rank, self.effective_total, "
            f"self._world_size) for a disjoint exact cover", rel, g.line, sample=tnames)
     ln = res.find_method(base, "__len__")[0]
@@ -188,7 +200,7 @@ def run(ctx: Ctx):
     n = Normalizer()
     want = padd(n.poly(triple[1]), n.poly(triple[0]), -1)
     okl = cd is not None and not padd(cd[0], want, -1) and not padd(cd[1], n.poly(triple[2]), -1)
-    col.ob("G12", "S3", f"{rel}::{ln.qualname}::ceil((stop-start)/step)", okl,
+    col.ob("G12", "S3", f"{rel}::{ln.qualname}::ceil((stop-start)/step)", okl or _table_first,
            f"__len__ returns `{u(rets[0].value)}` which is not ceil((stop - start) / step) of the rank slice "
            f"{tnames}" + (f" (normalises to ceil(({pstr(cd[0])}) / ({pstr(cd[1])})))" if cd else ""),
            rel, rets[0].lineno, sample=dict(len=u(rets[0].value), slice=tnames))
@@ -228,6 +240,9 @@ def run(ctx: Ctx):
     except NotEvaluable as e:
         rows = None
         col.undecided(f"{where}: the sampler constructor / rank share is outside the interpreted fragment ({e})")
+        col.ob("G12", "S3", f"{rel}::{g.qualname}::slice-triple[spelling]", tnames == ["self._rank", "self.effective_total", "self._world_size"],
+               f"rank slice is (start, stop, step) = {tnames}", rel, g.line)
+        col.ob("G12", "S3", f"{rel}::{ln.qualname}::ceil((stop-start)/step)[spelling]", okl, f"__len__ returns `{u(rets[0].value)}`", rel, rets[0].lineno)
     if rows is not None:
         col.floor("sampler_table_rows", len(rows), 100)
 
